@@ -1,72 +1,858 @@
 package main
 
 import (
+	"encoding/json"
 	"flag"
 	"fmt"
 	"os"
+	"os/exec"
+	"path/filepath"
+	"sort"
+	"strconv"
+	"strings"
+	"sync"
 	"time"
 
 	"gosmt/smt"
 	"gosmt/symex"
+
+	"golang.org/x/tools/go/ssa"
 )
+
+const verifDir = "/verif"
 
 func main() {
 	if len(os.Args) < 2 {
-		fmt.Println("usage: gosmt run <property> [--tier quick|thorough]")
+		fmt.Println("usage: gosmt run <property> [--tier quick|thorough] | replay <witness.json> | debug <property>")
 		os.Exit(2)
 	}
 	switch os.Args[1] {
 	case "run":
 		os.Exit(runCmd(os.Args[2:]))
+	case "replay":
+		os.Exit(replayCmd(os.Args[2:]))
 	case "debug":
 		os.Exit(debugCmd(os.Args[2:]))
 	}
+	fmt.Println("unknown command", os.Args[1])
 	os.Exit(2)
 }
+
+type knownFinding struct {
+	ID         string `json:"id"`
+	Property   string `json:"property"`
+	Status     string `json:"status"` // known | fixed
+	Obligation string `json:"obligation"`
+	Pred       string `json:"input_predicate"`
+	WhatFails  string `json:"what_fails"`
+	Commit     string `json:"commit,omitempty"`
+}
+
+func loadKnown(prop string) []knownFinding {
+	data, err := os.ReadFile(filepath.Join(verifDir, "known_findings.json"))
+	if err != nil {
+		return nil
+	}
+	var all struct {
+		Findings []knownFinding `json:"findings"`
+	}
+	if err := json.Unmarshal(data, &all); err != nil {
+		fmt.Println("known_findings.json:", err)
+		return nil
+	}
+	var out []knownFinding
+	for _, k := range all.Findings {
+		if k.Property == prop {
+			out = append(out, k)
+		}
+	}
+	return out
+}
+
+func onlyFilter(prop string) func(dir, file string) bool {
+	tag := "_" + strings.ToLower(prop) + "_"
+	return func(dir, file string) bool {
+		return strings.HasPrefix(file, "zz_verif_common") || strings.Contains(file, tag)
+	}
+}
+
+// propDirs lists harness package dirs that contain at least one file for the property.
+func loadProgram(prop string) (*symex.Program, error) {
+	tag := "_" + strings.ToLower(prop) + "_"
+	dirsWith := map[string]bool{}
+	filepath.Walk(filepath.Join(verifDir, "harness"), func(path string, info os.FileInfo, e error) error {
+		if e == nil && !info.IsDir() && strings.Contains(filepath.Base(path), tag) {
+			rel, _ := filepath.Rel(filepath.Join(verifDir, "harness"), filepath.Dir(path))
+			dirsWith[rel] = true
+		}
+		return nil
+	})
+	f := onlyFilter(prop)
+	return symex.Load(symex.LoadConfig{RepoDir: "/repo", HarnessDir: filepath.Join(verifDir, "harness"), RTDir: filepath.Join(verifDir, "rt/verifrt"),
+		Only: func(dir, file string) bool { return dirsWith[dir] && f(dir, file) }})
+}
+
+type tierCfg struct {
+	name       string
+	maxPaths   int
+	unwind     int
+	solverMs   int
+	perHarness time.Duration
+	samples    int
+	solvers    []string
+}
+
+func tierOf(name string) tierCfg {
+	if name == "thorough" {
+		return tierCfg{name: "thorough", maxPaths: 60000, unwind: 16, solverMs: 120000, perHarness: 25 * time.Minute, samples: 12, solvers: []string{"z3-new", "cvc5", "z3"}}
+	}
+	return tierCfg{name: "quick", maxPaths: 6000, unwind: 12, solverMs: 20000, perHarness: 150 * time.Second, samples: 3, solvers: []string{"z3-new"}}
+}
+
+type harnessResult struct {
+	h        *ssa.Function
+	ex       *symex.Exec
+	solver   *smt.Solver
+	wall     time.Duration
+	samples  []*symex.Candidate
+	crossChk map[string]string // solver -> summary
+	disagree []string
+}
+
+func solverFor(h *ssa.Function, def string) string {
+	// harnesses whose name ends in _cvc5 are decided by cvc5 (calendar arithmetic, see DESIGN P6)
+	if strings.HasSuffix(h.Name(), "_cvc5") {
+		return "cvc5"
+	}
+	return def
+}
+
+func runHarness(p *symex.Program, h *ssa.Function, tc tierCfg, solverKind string, known []knownFinding, seed int64) *harnessResult {
+	s, err := smt.NewSolver(solverKind, tc.solverMs)
+	if err != nil {
+		fmt.Println("solver:", err)
+		os.Exit(2)
+	}
+	lim := symex.Limits{MaxPaths: tc.maxPaths, Unwind: tc.unwind, MaxDepth: 250, MaxSteps: 4000000, SolverMs: tc.solverMs,
+		Deadline: time.Now().Add(tc.perHarness)}
+	ex := symex.NewExec(p, h, s, lim)
+	ex.Tier = tc.name
+	ex.SampleEvery = tc.samples
+	ex.Seed = seed
+	for _, k := range known {
+		if k.Status == "known" {
+			ex.Known = append(ex.Known, symex.KnownPredicate{ID: k.ID, Obligation: k.Obligation, Pred: k.Pred})
+		}
+	}
+	t0 := time.Now()
+	ex.Run()
+	s.Close()
+	return &harnessResult{h: h, ex: ex, solver: s, wall: time.Since(t0)}
+}
+
+func runCmd(args []string) int {
+	if len(args) < 1 {
+		fmt.Println("usage: gosmt run <property> [--tier quick|thorough]")
+		return 2
+	}
+	prop := args[0]
+	fs := flag.NewFlagSet("run", flag.ExitOnError)
+	tierName := fs.String("tier", "quick", "")
+	onlyH := fs.String("only", "", "run only harnesses whose name contains this")
+	noReplay := fs.Bool("no-replay", false, "")
+	fs.Parse(args[1:])
+	if t := os.Getenv("VERIF_TIER"); t != "" && *tierName == "" {
+		*tierName = t
+	}
+	tc := tierOf(*tierName)
+	seed := int64(0)
+	if s := os.Getenv("VERIF_SEED"); s != "" {
+		seed, _ = strconv.ParseInt(s, 10, 64)
+	}
+	t0 := time.Now()
+	known := loadKnown(prop)
+	p, err := loadProgram(prop)
+	if err != nil {
+		fmt.Println("BUILD-ERROR (no verdict):", err)
+		return 2
+	}
+	loadDur := time.Since(t0)
+	hs := p.Harnesses(prop)
+	if *onlyH != "" {
+		var f []*ssa.Function
+		for _, h := range hs {
+			if strings.Contains(h.Name(), *onlyH) {
+				f = append(f, h)
+			}
+		}
+		hs = f
+	}
+	if len(hs) == 0 {
+		fmt.Println("no harnesses for", prop)
+		return 2
+	}
+	fmt.Printf("gosmt: property %s tier %s: %d harnesses, load %.1fs\n", prop, tc.name, len(hs), loadDur.Seconds())
+
+	results := make([]*harnessResult, len(hs))
+	var wg sync.WaitGroup
+	sem := make(chan struct{}, 12)
+	for i, h := range hs {
+		wg.Add(1)
+		go func(i int, h *ssa.Function) {
+			defer wg.Done()
+			sem <- struct{}{}
+			defer func() { <-sem }()
+			r := runHarness(p, h, tc, solverFor(h, tc.solvers[0]), known, seed)
+			// thorough: cross-check verdicts with the other solvers
+			if tc.name == "thorough" && !strings.HasSuffix(h.Name(), "_cvc5") {
+				base := verdicts(r.ex)
+				r.crossChk = map[string]string{}
+				for _, sk := range tc.solvers[1:] {
+					tc2 := tc
+					tc2.samples = 0
+					r2 := runHarness(p, h, tc2, sk, known, seed)
+					v2 := verdicts(r2.ex)
+					diff := diffVerdicts(base, v2)
+					r.crossChk[sk] = fmt.Sprintf("paths=%d queries=%d ms=%d inconclusive=%d differences=%d", r2.ex.Paths, r2.solver.Queries, r2.solver.Millis, countInconcl(r2.ex), len(diff))
+					for _, d := range diff {
+						r.disagree = append(r.disagree, sk+": "+d)
+					}
+				}
+			}
+			results[i] = r
+		}(i, h)
+	}
+	wg.Wait()
+
+	// replay
+	rp := newReplayer(p, prop)
+	exit := 0
+	var lines []string
+	violations := 0
+	knownLines := map[string]bool{}
+	validated := 0
+	spurious := 0
+	for _, r := range results {
+		for _, c := range r.ex.SortedCands() {
+			if *noReplay {
+				c.Replay = "SKIPPED"
+				continue
+			}
+			rel, outcome := rp.replay(r.h, c)
+			c.WitnessRel = rel
+			c.Replay = classify(c, outcome)
+			switch {
+			case c.Replay == "REPRODUCED" && c.Known == "":
+				violations++
+				exit = 1
+				lines = append(lines, fmt.Sprintf("VIOLATION property=%s replay=%s", prop, filepath.Join(verifDir, rel)))
+				lines = append(lines, fmt.Sprintf("  harness=%s obligation=%s at %s native=%q draws=%s", r.h.Name(), c.Obligation, c.Pos, outcome, drawsString(c.Draws)))
+			case c.Replay == "REPRODUCED":
+				for _, k := range known {
+					if k.ID == c.Known && !knownLines[k.ID] {
+						knownLines[k.ID] = true
+						lines = append(lines, fmt.Sprintf("KNOWN-FINDING: property=%s %s [%s]", prop, k.WhatFails, k.ID))
+					}
+				}
+			default:
+				spurious++
+				lines = append(lines, fmt.Sprintf("SPURIOUS (not reported): harness=%s obligation=%s native=%q draws=%s", r.h.Name(), c.Obligation, outcome, drawsString(c.Draws)))
+			}
+		}
+		// translator validation on sampled passing paths
+		if !*noReplay {
+			for _, sc := range r.ex.Samples {
+				_, outcome := rp.replay(r.h, sc)
+				okObs := compareObs(sc, outcome)
+				if strings.Contains(outcome, "outcome=ok") && okObs {
+					validated++
+					sc.Replay = "AGREE"
+				} else {
+					sc.Replay = "DISAGREE: " + outcome
+					r.ex.Untrusted = append(r.ex.Untrusted, fmt.Sprintf("path sample %v: engine predicts ok, native says %q", sc.Path, outcome))
+				}
+			}
+		}
+	}
+	rp.cleanup()
+
+	// report
+	inconcl := 0
+	for _, r := range results {
+		ex := r.ex
+		fmt.Printf("== %s: paths=%d %v steps=%d queries=%d solver=%dms wall=%.1fs\n", r.h.Name(), ex.Paths, ex.PathsByEnd, ex.Steps, r.solver.Queries, r.solver.Millis, r.wall.Seconds())
+		for _, o := range ex.SortedObs() {
+			if o.Inconcl > 0 {
+				inconcl++
+				fmt.Printf("   INCONCLUSIVE %s: %s\n", o.ID, o.FirstReason)
+			}
+		}
+		keys := sortedKeys(ex.Unsupported)
+		for _, k := range keys {
+			fmt.Printf("   INCONCLUSIVE unsupported x%d: %s\n", ex.Unsupported[k], k)
+		}
+		for _, k := range dedup(ex.Incomplete) {
+			fmt.Printf("   INCOMPLETE: %s\n", k)
+		}
+		for _, k := range ex.Untrusted {
+			fmt.Printf("   UNTRUSTED: %s\n", k)
+		}
+		for _, d := range r.disagree {
+			fmt.Printf("   SOLVER-DISAGREEMENT: %s\n", d)
+		}
+	}
+	for _, l := range lines {
+		fmt.Println(l)
+	}
+	wall := time.Since(t0)
+	writeEvidence(prop, tc, seed, results, violations, validated, spurious, wall, known)
+	fmt.Printf("gosmt: %s %s done in %.1fs: violations=%d known=%d spurious=%d validated-traces=%d\n", prop, tc.name, wall.Seconds(), violations, len(knownLines), spurious, validated)
+	return exit
+}
+
+func sortedKeys(m map[string]int) []string {
+	var ks []string
+	for k := range m {
+		ks = append(ks, k)
+	}
+	sort.Strings(ks)
+	return ks
+}
+
+func dedup(xs []string) []string {
+	seen := map[string]int{}
+	var out []string
+	for _, x := range xs {
+		if seen[x] == 0 {
+			out = append(out, x)
+		}
+		seen[x]++
+	}
+	for i, x := range out {
+		if seen[x] > 1 {
+			out[i] = fmt.Sprintf("%s (x%d)", x, seen[x])
+		}
+	}
+	return out
+}
+
+func verdicts(ex *symex.Exec) map[string]string {
+	m := map[string]string{}
+	for _, o := range ex.SortedObs() {
+		v := "discharged"
+		if o.Sat > 0 {
+			v = "sat"
+		} else if o.Inconcl > 0 {
+			v = "inconclusive"
+		}
+		m[o.ID] = v
+	}
+	return m
+}
+
+func diffVerdicts(a, b map[string]string) []string {
+	var out []string
+	for k, va := range a {
+		vb, ok := b[k]
+		if !ok {
+			continue
+		}
+		if va != vb && va != "inconclusive" && vb != "inconclusive" {
+			out = append(out, fmt.Sprintf("%s: %s vs %s", k, va, vb))
+		}
+	}
+	sort.Strings(out)
+	return out
+}
+
+func countInconcl(ex *symex.Exec) int {
+	n := 0
+	for _, o := range ex.Obs {
+		if o.Inconcl > 0 {
+			n++
+		}
+	}
+	return n
+}
+
+func drawsString(ds []symex.Draw) string {
+	var parts []string
+	for _, d := range ds {
+		switch d.Op {
+		case "string":
+			b := make([]byte, len(d.Bytes))
+			for i, x := range d.Bytes {
+				b[i] = byte(x)
+			}
+			parts = append(parts, fmt.Sprintf("%s=%q", d.Label, string(b)))
+		case "decimal":
+			parts = append(parts, fmt.Sprintf("%s=%ve-%d", d.Label, d.V, d.N))
+		default:
+			parts = append(parts, fmt.Sprintf("%s=%v", d.Label, d.V))
+		}
+	}
+	return strings.Join(parts, " ")
+}
+
+// classify maps the native outcome line to REPRODUCED / NOT-REPRODUCED / ...
+func classify(c *symex.Candidate, outcome string) string {
+	i := strings.Index(outcome, "outcome=")
+	if i < 0 {
+		if strings.Contains(outcome, "TIMEOUT") && c.Kind == "hang" {
+			return "REPRODUCED"
+		}
+		return "NO-OUTCOME"
+	}
+	o := outcome[i+len("outcome="):]
+	switch {
+	case strings.HasPrefix(o, "assume-rejected"):
+		return "ASSUME-REJECTED"
+	case strings.HasPrefix(o, "desync"):
+		return "DESYNC"
+	}
+	switch c.Kind {
+	case "assert":
+		if strings.HasPrefix(o, "assert label="+c.Label) {
+			return "REPRODUCED"
+		}
+	case "frame":
+		if strings.HasPrefix(o, "frame") {
+			return "REPRODUCED"
+		}
+	default:
+		if strings.HasPrefix(o, "panic") {
+			return "REPRODUCED"
+		}
+	}
+	return "NOT-REPRODUCED"
+}
+
+func compareObs(sc *symex.Candidate, outcome string) bool {
+	if len(sc.Observed) == 0 {
+		return true
+	}
+	var native []string
+	for _, l := range strings.Split(outcome, "\n") {
+		if strings.HasPrefix(l, "VERIF-OBSERVE ") {
+			native = append(native, strings.TrimPrefix(l, "VERIF-OBSERVE "))
+		}
+	}
+	j := 0
+	for _, o := range sc.Observed {
+		if strings.Contains(o, "?") {
+			j++
+			continue // not evaluable on the engine side
+		}
+		if j >= len(native) || native[j] != o {
+			return false
+		}
+		j++
+	}
+	return true
+}
+
+// ---- native replay ----
+
+type replayer struct {
+	p     *symex.Program
+	prop  string
+	work  string
+	bins  map[string]string // pkg dir -> test binary
+	errs  map[string]string
+	mu    sync.Mutex
+	count int
+}
+
+func newReplayer(p *symex.Program, prop string) *replayer {
+	w := filepath.Join(verifDir, ".work", fmt.Sprintf("%s-%d", prop, os.Getpid()))
+	os.MkdirAll(w, 0755)
+	os.MkdirAll(filepath.Join(verifDir, "evidence", "witness"), 0755)
+	return &replayer{p: p, prop: prop, work: w, bins: map[string]string{}, errs: map[string]string{}}
+}
+
+func (r *replayer) cleanup() { os.RemoveAll(r.work) }
+
+func goEnv() []string {
+	return append(os.Environ(), "GOFLAGS=-mod=mod", "GOPROXY=off", "GOSUMDB=off", "GOTOOLCHAIN=local")
+}
+
+// build compiles the replay test binary of one harness package (once).
+func (r *replayer) build(h *ssa.Function) (string, error) {
+	pkgPath := h.Pkg.Pkg.Path()
+	rel := strings.TrimPrefix(pkgPath, symex.RepoModule+"/")
+	r.mu.Lock()
+	defer r.mu.Unlock()
+	if b, ok := r.bins[rel]; ok {
+		if b == "" {
+			return "", fmt.Errorf("%s", r.errs[rel])
+		}
+		return b, nil
+	}
+	// generated test file listing all harnesses of the package
+	var names []string
+	for name, m := range h.Pkg.Members {
+		if _, ok := m.(*ssa.Function); ok && strings.HasPrefix(name, "VerifHarness_") {
+			names = append(names, name)
+		}
+	}
+	sort.Strings(names)
+	var sb strings.Builder
+	fmt.Fprintf(&sb, "//go:build verif\n\npackage %s\n\nimport (\n\t\"os\"\n\t\"testing\"\n\n\t\"%s/internal/verifrt\"\n)\n\n", h.Pkg.Pkg.Name(), symex.RepoModule)
+	sb.WriteString("func TestVerifReplay(t *testing.T) {\n\tname := os.Getenv(\"VERIF_HARNESS\")\n\tfns := map[string]func(){\n")
+	for _, n := range names {
+		fmt.Fprintf(&sb, "\t\t%q: %s,\n", n, n)
+	}
+	sb.WriteString("\t}\n\tf, ok := fns[name]\n\tif !ok {\n\t\tt.Fatalf(\"no harness %q\", name)\n\t}\n\tverifrt.RunReplay(name, f)\n}\n")
+	testFile := filepath.Join(r.work, strings.ReplaceAll(rel, "/", "_")+"_replay_test.go")
+	os.WriteFile(testFile, []byte(sb.String()), 0644)
+	ov := map[string]string{}
+	for virt, real := range r.p.Overlay {
+		ov[virt] = real
+	}
+	ov[filepath.Join("/repo", rel, "zz_verif_replay_test.go")] = testFile
+	ovData, _ := json.Marshal(map[string]interface{}{"Replace": ov})
+	ovFile := filepath.Join(r.work, strings.ReplaceAll(rel, "/", "_")+"_overlay.json")
+	os.WriteFile(ovFile, ovData, 0644)
+	bin := filepath.Join(r.work, strings.ReplaceAll(rel, "/", "_")+".test")
+	cmd := exec.Command("go", "test", "-c", "-tags", "verif", "-vet=off", "-overlay", ovFile, "-o", bin, "./"+rel)
+	cmd.Dir = "/repo"
+	cmd.Env = goEnv()
+	out, err := cmd.CombinedOutput()
+	if err != nil {
+		r.bins[rel] = ""
+		r.errs[rel] = fmt.Sprintf("replay build failed: %v\n%s", err, out)
+		return "", fmt.Errorf("%s", r.errs[rel])
+	}
+	r.bins[rel] = bin
+	return bin, nil
+}
+
+type witnessFile struct {
+	Property   string       `json:"property"`
+	Harness    string       `json:"harness"`
+	Package    string       `json:"package"`
+	Obligation string       `json:"obligation"`
+	Kind       string       `json:"kind"`
+	Label      string       `json:"label,omitempty"`
+	Pos        string       `json:"pos,omitempty"`
+	Known      string       `json:"known,omitempty"`
+	Draws      []symex.Draw `json:"draws"`
+}
+
+func (r *replayer) replay(h *ssa.Function, c *symex.Candidate) (string, string) {
+	bin, err := r.build(h)
+	if err != nil {
+		return "", err.Error()
+	}
+	r.mu.Lock()
+	r.count++
+	n := r.count
+	r.mu.Unlock()
+	wf := witnessFile{Property: r.prop, Harness: h.Name(), Package: h.Pkg.Pkg.Path(), Obligation: c.Obligation, Kind: c.Kind, Label: c.Label, Pos: c.Pos, Known: c.Known, Draws: c.Draws}
+	data, _ := json.MarshalIndent(wf, "", " ")
+	rel := ""
+	var path string
+	if c.Kind == "sample" {
+		path = filepath.Join(r.work, fmt.Sprintf("sample-%d.json", n))
+	} else {
+		rel = filepath.Join("evidence", "witness", fmt.Sprintf("%s-%s-%d.json", r.prop, h.Name(), n))
+		path = filepath.Join(verifDir, rel)
+	}
+	os.WriteFile(path, data, 0644)
+	return rel, runWitness(bin, path, h.Name())
+}
+
+func runWitness(bin, witness, harness string) string {
+	cmd := exec.Command("timeout", "-k", "2", "30", bin, "-test.run", "^TestVerifReplay$", "-test.v")
+	cmd.Dir = filepath.Dir(bin)
+	cmd.Env = append(os.Environ(), "VERIF_WITNESS="+witness, "VERIF_HARNESS="+harness)
+	out, err := cmd.CombinedOutput()
+	var keep []string
+	for _, l := range strings.Split(string(out), "\n") {
+		if strings.HasPrefix(l, "VERIF-") {
+			keep = append(keep, l)
+		}
+	}
+	if ee, ok := err.(*exec.ExitError); ok && ee.ExitCode() == 124 {
+		keep = append(keep, "TIMEOUT")
+	}
+	if len(keep) == 0 {
+		s := string(out)
+		if len(s) > 600 {
+			s = s[:600]
+		}
+		return "no outcome line: " + s
+	}
+	return strings.Join(keep, "\n")
+}
+
+func replayCmd(args []string) int {
+	if len(args) < 1 {
+		fmt.Println("usage: gosmt replay <witness.json>")
+		return 2
+	}
+	data, err := os.ReadFile(args[0])
+	if err != nil {
+		fmt.Println(err)
+		return 2
+	}
+	var wf witnessFile
+	if err := json.Unmarshal(data, &wf); err != nil {
+		fmt.Println(err)
+		return 2
+	}
+	p, err := loadProgram(wf.Property)
+	if err != nil {
+		fmt.Println("BUILD-ERROR:", err)
+		return 2
+	}
+	var h *ssa.Function
+	for _, f := range p.Harnesses(wf.Property) {
+		if f.Name() == wf.Harness {
+			h = f
+		}
+	}
+	if h == nil {
+		fmt.Println("harness not found:", wf.Harness)
+		return 2
+	}
+	rp := newReplayer(p, wf.Property)
+	defer rp.cleanup()
+	bin, err := rp.build(h)
+	if err != nil {
+		fmt.Println(err)
+		return 2
+	}
+	abs, _ := filepath.Abs(args[0])
+	outcome := runWitness(bin, abs, wf.Harness)
+	fmt.Println(outcome)
+	c := &symex.Candidate{Kind: wf.Kind, Label: wf.Label}
+	res := classify(c, outcome)
+	fmt.Println(res, wf.Obligation)
+	if res == "REPRODUCED" {
+		return 1
+	}
+	return 0
+}
+
+// ---- evidence ----
+
+func writeEvidence(prop string, tc tierCfg, seed int64, results []*harnessResult, violations, validated, spurious int, wall time.Duration, known []knownFinding) {
+	type sample struct {
+		Obligation string `json:"obligation"`
+		Verdict    string `json:"verdict"`
+		Checked    int    `json:"times_posed"`
+		Trivial    int    `json:"folded_true"`
+		Pos        string `json:"pos,omitempty"`
+		Witness    string `json:"witness,omitempty"`
+		Replay     string `json:"replay,omitempty"`
+		Known      string `json:"known,omitempty"`
+	}
+	cov := map[string]interface{}{}
+	states, transitions := 0, int64(0)
+	obligations, discharged, inconclusive, sat := 0, 0, 0, 0
+	queries, solverMs := 0, int64(0)
+	funcs := map[string]int{}
+	modelsUsed := map[string]int{}
+	unsupported := map[string]int{}
+	forks := map[string]int{}
+	var samples []sample
+	var incomplete, untrusted, disagreements []string
+	harnessInfo := []map[string]interface{}{}
+	reached := map[string]int{}
+	assumes := map[string]int{}
+	flags := map[string]int{}
+	for _, r := range results {
+		ex := r.ex
+		states += ex.Paths
+		transitions += ex.Steps
+		queries += r.solver.Queries
+		solverMs += r.solver.Millis
+		for k, v := range ex.Funcs {
+			funcs[k] += v
+		}
+		for k, v := range ex.Models {
+			modelsUsed[k] += v
+		}
+		for k, v := range ex.Unsupported {
+			unsupported[k] += v
+		}
+		for k, v := range ex.Forks {
+			forks[k] += v
+		}
+		for k, v := range ex.Reached {
+			reached[r.h.Name()+":"+k] += v
+		}
+		for k, v := range ex.Assumes {
+			assumes[k] += v
+		}
+		for k, v := range ex.Flags {
+			flags[k] += v
+		}
+		cands := map[string][]*symex.Candidate{}
+		for _, c := range ex.SortedCands() {
+			cands[c.Obligation] = append(cands[c.Obligation], c)
+		}
+		for _, o := range ex.SortedObs() {
+			obligations++
+			v := "discharged"
+			switch {
+			case o.Sat > 0:
+				v = "sat"
+				sat++
+			case o.Inconcl > 0:
+				v = "inconclusive"
+				inconclusive++
+			default:
+				discharged++
+			}
+			s := sample{Obligation: o.ID, Verdict: v, Checked: o.Checked, Trivial: o.Trivial, Pos: o.Pos}
+			for _, c := range cands[o.ID] {
+				s.Witness, s.Replay, s.Known = c.WitnessRel, c.Replay, c.Known
+			}
+			if len(samples) < 400 || v != "discharged" {
+				samples = append(samples, s)
+			}
+		}
+		incomplete = append(incomplete, prefixAll(r.h.Name()+": ", dedup(ex.Incomplete))...)
+		untrusted = append(untrusted, prefixAll(r.h.Name()+": ", ex.Untrusted)...)
+		disagreements = append(disagreements, prefixAll(r.h.Name()+": ", r.disagree)...)
+		hi := map[string]interface{}{"harness": r.h.Name(), "paths": ex.Paths, "paths_by_end": ex.PathsByEnd, "instructions": ex.Steps,
+			"solver": r.solver.Name, "queries": r.solver.Queries, "solver_ms": r.solver.Millis, "wall_s": r.wall.Seconds(),
+			"by_result": map[string]int{"unsat": r.solver.ByRes[0], "sat": r.solver.ByRes[1], "unknown": r.solver.ByRes[2]}}
+		if r.crossChk != nil {
+			hi["cross_check"] = r.crossChk
+		}
+		harnessInfo = append(harnessInfo, hi)
+	}
+	if samples == nil {
+		samples = []sample{}
+	}
+	var fnList []string
+	for k := range funcs {
+		fnList = append(fnList, k)
+	}
+	sort.Strings(fnList)
+	cov["states"] = states
+	cov["transitions"] = transitions
+	cov["traces_validated_against_impl"] = validated
+	cov["samples"] = samples
+	cov["obligations"] = obligations
+	cov["discharged"] = discharged
+	cov["sat_replayed"] = sat
+	cov["inconclusive"] = inconclusive
+	cov["spurious_candidates"] = spurious
+	cov["solver_queries"] = queries
+	cov["solver_ms"] = solverMs
+	cov["functions_encoded"] = fnList
+	cov["models_used"] = modelsUsed
+	cov["unsupported_paths"] = unsupported
+	cov["fork_points"] = forks
+	cov["harnesses"] = harnessInfo
+	cov["incomplete"] = incomplete
+	cov["untrusted"] = untrusted
+	cov["solver_disagreements"] = disagreements
+	cov["reach_markers"] = reached
+	cov["path_flags"] = flags
+	cov["bounds"] = map[string]interface{}{"max_paths_per_harness": tc.maxPaths, "unwind": tc.unwind, "solver_timeout_ms": tc.solverMs,
+		"per_harness_deadline_s": tc.perHarness.Seconds(), "harness_bounds": "see DESIGN.md §4 and the harness sources; verifrt.Bound(q,t) selects per tier"}
+	cov["solver_versions"] = solverVersions(tc.solvers)
+	cov["trusted_base"] = []string{"go/ssa (x/tools v0.29.0)", "gosmt interpreter + models (validated by native replay of sampled paths and of every counterexample)", "SMT solvers: " + strings.Join(tc.solvers, ", ")}
+	cov["exhaustive"] = false
+	var kn []string
+	for _, k := range known {
+		kn = append(kn, fmt.Sprintf("%s [%s] %s", k.ID, k.Status, k.WhatFails))
+	}
+	cov["known_findings"] = kn
+	assumptions := []string{
+		"GOARCH=amd64: int/uint are 64-bit; out-of-range float->int32/int64 conversions yield the minimum value (CVTTSD2SL/SQ)",
+		"integers are SMT Int with explicit mod-2^k wrapping; strings are concrete-length tuples of symbolic bytes",
+		"math/big.Int is modelled as an unbounded SMT integer; github.com/shopspring/decimal is executed from its source on top of that",
+		"time.Time is modelled as (unix seconds, nanoseconds, fixed offset); calendar fields via Hinnant's civil_from_days/days_from_civil",
+		"errors.New/fmt.Errorf/errors.Is/errors.Join: identity + %w chain; message text is opaque",
+		"regexp: real regexp/syntax program run by a backtracking matcher whose rune tests fork",
+		"map iteration follows insertion order (claims must not depend on map order; flagged per path)",
+	}
+	for k := range assumes {
+		assumptions = append(assumptions, "harness Assume at "+k)
+	}
+	sort.Strings(assumptions[7:])
+	ev := map[string]interface{}{
+		"property_id": prop, "tier": tc.name, "seed": seed, "level": "model_checking", "coverage": cov,
+		"assumptions": assumptions, "wall_s": wall.Seconds(), "violations": violations,
+	}
+	data, _ := json.MarshalIndent(ev, "", " ")
+	os.MkdirAll(filepath.Join(verifDir, "evidence"), 0755)
+	os.WriteFile(filepath.Join(verifDir, "evidence", prop+".json"), data, 0644)
+}
+
+func prefixAll(p string, xs []string) []string {
+	out := []string{}
+	for _, x := range xs {
+		out = append(out, p+x)
+	}
+	return out
+}
+
+func solverVersions(kinds []string) map[string]string {
+	m := map[string]string{}
+	for _, k := range kinds {
+		out, err := exec.Command(k, "--version").CombinedOutput()
+		if err == nil {
+			m[k] = strings.TrimSpace(strings.Split(string(out), "\n")[0])
+		}
+	}
+	return m
+}
+
+// ---- debug ----
 
 func debugCmd(args []string) int {
 	fs := flag.NewFlagSet("debug", flag.ExitOnError)
 	trace := fs.Bool("trace", false, "")
 	only := fs.String("only", "", "")
+	solver := fs.String("solver", "z3-new", "")
+	paths := fs.Int("paths", 5000, "")
 	fs.Parse(args[1:])
 	prop := args[0]
 	t0 := time.Now()
-	p, err := symex.Load(symex.LoadConfig{RepoDir: "/repo", HarnessDir: "/verif/harness", RTDir: "/verif/rt/verifrt"})
+	p, err := loadProgram(prop)
 	if err != nil {
 		fmt.Println("load error:", err)
 		return 2
 	}
 	fmt.Printf("loaded in %v\n", time.Since(t0))
 	for _, h := range p.Harnesses(prop) {
-		if *only != "" && h.Name() != *only {
+		if *only != "" && !strings.Contains(h.Name(), *only) {
 			continue
 		}
-		s, err := smt.NewSolver("z3-new", 10000)
+		s, err := smt.NewSolver(solverFor(h, *solver), 10000)
 		if err != nil {
 			fmt.Println(err)
 			return 2
 		}
-		ex := symex.NewExec(p, h, s, symex.Limits{MaxPaths: 5000, Unwind: 8, MaxDepth: 200, MaxSteps: 2000000})
+		ex := symex.NewExec(p, h, s, symex.Limits{MaxPaths: *paths, Unwind: 12, MaxDepth: 250, MaxSteps: 4000000})
 		ex.Trace = *trace
+		ex.Tier = "quick"
 		t1 := time.Now()
 		ex.Run()
 		s.Close()
 		fmt.Printf("== %s: paths=%d %v steps=%d queries=%d solver=%dms wall=%v\n", h.Name(), ex.Paths, ex.PathsByEnd, ex.Steps, s.Queries, s.Millis, time.Since(t1))
 		for _, o := range ex.SortedObs() {
-			fmt.Printf("   ob %-70s checked=%d trivial=%d unsat=%d sat=%d inconcl=%d\n", o.ID, o.Checked, o.Trivial, o.Discharged, o.Sat, o.Inconcl)
+			if o.Sat > 0 || o.Inconcl > 0 {
+				fmt.Printf("   ob %-70s checked=%d trivial=%d unsat=%d sat=%d inconcl=%d\n", o.ID, o.Checked, o.Trivial, o.Discharged, o.Sat, o.Inconcl)
+			}
 		}
 		for _, c := range ex.SortedCands() {
-			fmt.Printf("   CAND %s known=%q draws=%v\n", c.Obligation, c.Known, c.Draws)
+			fmt.Printf("   CAND %s known=%q %s\n", c.Obligation, c.Known, drawsString(c.Draws))
 		}
-		for k, v := range ex.Unsupported {
-			fmt.Printf("   UNSUPPORTED x%d: %s\n", v, k)
+		for _, k := range sortedKeys(ex.Unsupported) {
+			fmt.Printf("   UNSUPPORTED x%d: %s\n", ex.Unsupported[k], k)
 		}
-		for _, k := range ex.Incomplete {
+		for _, k := range dedup(ex.Incomplete) {
 			fmt.Printf("   INCOMPLETE: %s\n", k)
 		}
-		fmt.Printf("   reached=%v\n", ex.Reached)
+		fmt.Printf("   reached=%v obligations=%d\n", ex.Reached, len(ex.Obs))
 	}
 	return 0
 }
-
-func runCmd(args []string) int { return 0 }
